@@ -6,7 +6,10 @@ import DclabModel.DriveUtil
     reset                                   new dataset: no features, empty config, empty cache,
                                             no plug-in recipes
     innate <feat>=<tok> …                   innate features (`_events`)
-    plugin <name> <prio> <reqF> <reqC> <outs> <method>
+    plugin <name> <prio> <reqF> <reqC> <outs> <method> [channel]
+                                            (`channel`: a boolean `method check required` that
+                                            is true iff `[setup] chip region` is absent or
+                                            "channel")
                                             append a plug-in recipe; lists are comma separated,
                                             `-` = empty; → `ok sound=<0|1>` (decidable premises
                                             of `cache_transparent` for the extended registry)
@@ -66,13 +69,14 @@ def handle (d : DS) (line : String) : DS × String :=
     let ps := kvs.filterMap (fun kv => match kv.splitOn "=" with
       | [k, v] => some (k, v) | _ => none)
     if ps.length = kvs.length then ({ d with innate := d.innate ++ ps }, "ok") else (d, "bad-op")
-  | ["plugin", name, prio, rf, rc, outs, method] =>
+  | "plugin" :: name :: prio :: rf :: rc :: outs :: method :: gd =>
     match parseInt? prio with
     | some pr =>
       let rF := parseL rf
       let rC := (parseL rc).map unkey
       let p : Spec := { idx := d.specs.length, name := name, priority := pr, reqF := rF,
-                        reqC := rC, guard := .always, extraC := [], extraF := [], readsF := rF,
+                        reqC := rC, guard := (if gd = ["channel"] then Guard.channel else Guard.always),
+                        extraC := [], extraF := [], readsF := rF,
                         readsC := rC, outs := parseL outs, method := method, tag := "" }
       let d' := { d with plugins := d.plugins ++ [p] }
       (d', "ok sound=" ++ (if soundB d'.specs then "1" else "0"))
